@@ -361,6 +361,7 @@ func (v *DeliverScopeVariables) Add(s context.Scope, name string, val value.Valu
 		return errors.WithStack(err)
 	}
 	v.ctx.Response.Header.Add(match[1], val.String())
+	v.ctx.Response.Assign(match[1])
 	return nil
 }
 
